@@ -478,7 +478,7 @@ RULES.append(("C01.m", "state-mutation inventory: no new site that changes the c
 
 def rule_mustpass(ctx):
     from . import mustpass
-    mustpass.check(ctx, ['synccell-write-stores-value', 'synccell-write-closes-window', 'step-until-steps'])
+    mustpass.check(ctx, ['synccell-write-stores-value', 'synccell-write-closes-window', 'step-until-steps', 'periodic-reinserted', 'cancelled-head-discarded'])
 
 
 RULES.append(("C01.n", "must-pass-through: no path around the effects this property rests on (added fast paths / early returns)", rule_mustpass))
